@@ -156,6 +156,14 @@ def execute(kind, programs, choose_factory, sched=None, group=None):
         sched.add(mk(i + 1, prog, storages[i]))
     info = sched.run(choose_factory(sched))
     raw_events += sched.log
+    t = _project_history(raw_events, shared, observer, sched, len(programs))
+    while _CLOSERS:
+        _CLOSERS.pop()()
+    t.update({"choices": sched.choices, "deadlock": int(info["deadlock"]), "lines": [w.lines for w in sched.workers]})
+    return t
+
+
+def _project_history(raw_events, shared, observer, sched, nprog):
     # ---- projection after the run: ids in creation (= raw id) order
     obs = sd.Replayer(observer)
     created_t = sorted(set(shared[1]) | {r[3][1] for r in raw_events if r[0] == "start" and r[1] > 0 and r[3] and
@@ -184,7 +192,7 @@ def execute(kind, programs, choose_factory, sched=None, group=None):
             ev.append({"e": "start", "w": 0, "op": op, "ret": res})
             continue
         if res is None:         # the worker never finished this call: it was killed inside it, or dead-locked
-            killed = any(getattr(wk, "kill", False) for wk in sched.workers if wk.wid == w)
+            killed = sched is not None and any(getattr(wk, "kill", False) for wk in sched.workers if wk.wid == w)
             ev.append({"e": "start", "w": w, "op": fix_op(op, t_of_raw),
                        "ret": {"k": "err", "v": "Crashed" if killed else "NeverReturned"}})
             continue
@@ -194,10 +202,7 @@ def execute(kind, programs, choose_factory, sched=None, group=None):
         if e["e"] == "start" and e["ret"]["k"] == "err" and str(e["ret"]["v"]).startswith("Unexpected:StorageInternalError"):
             e["ret"] = {"k": "err", "v": "Busy"}
     ev.append({"e": "final", "w": 0, "post": obs.post()})
-    while _CLOSERS:
-        _CLOSERS.pop()()
-    return {"workers": [0, 1, 2, 3][: len(programs) + 1], "ev": ev, "choices": sched.choices, "deadlock": int(info["deadlock"]),
-            "lines": [w.lines for w in sched.workers]}
+    return {"workers": list(range(nprog + 1)), "ev": ev, "choices": [], "deadlock": 0, "lines": []}
 
 
 def fix_op(op, t_of_raw):
@@ -249,6 +254,93 @@ def project(obs, op, ret, raw, s_of_raw, t_of_raw):
     if isinstance(v, tuple) and v[0] == "trials":
         return {"k": "ok", "v": [obs.proj_trial(t) for t in v[1]]}
     return ret
+
+
+# ---------------------------------------------------------------------------------------------------
+# real operating-system processes (free running): the only place where time is used, and only as end(a) < start(b)
+# ---------------------------------------------------------------------------------------------------
+def _proc_body(kind, path, storage, maps, w, prog, q):
+    import time
+
+    common.use_repo()
+    if storage is None:
+        from optuna.storages import JournalStorage, RDBStorage
+        from optuna.storages.journal import JournalFileBackend
+
+        storage = (JournalStorage(JournalFileBackend(path)) if kind == "journal_fresh"
+                   else RDBStorage(f"sqlite:///{path}", skip_compatibility_check=True, skip_table_creation=True))
+    rp = sd.Replayer(storage)
+    rp.rawS, rp.rawT, rp.s_of_raw, rp.t_of_raw = list(maps[0]), list(maps[1]), dict(maps[2]), dict(maps[3])
+    out, own = [], None
+    for op in prog:
+        op = dict(op)
+        if op.get("t") == "own":
+            op["t"] = ("raw", own)
+        t0 = time.monotonic_ns()
+        ret, raw = call_raw(rp, op)
+        t1 = time.monotonic_ns()
+        if raw is not None and op["a"] == "create_trial":
+            own = raw
+        out.append((w, op, ret, raw, t0, t1))
+    q.put(out)
+
+
+def real_procs_execute(kind, programs, workdir):
+    """kind: journal_fork (children inherit ONE JournalStorage object through fork), journal_fresh, sqlite"""
+    import multiprocessing as mp
+    import os
+    import tempfile
+
+    common.use_repo()
+    from optuna.storages import JournalStorage
+    from optuna.storages.journal import JournalFileBackend
+
+    d = tempfile.mkdtemp(prefix="procs-", dir=workdir)
+    if kind == "sqlite":
+        first = sd.fresh_rdb(d, workdir)
+        path, parent = os.path.join(d, "db.sqlite3"), first
+    else:
+        path = os.path.join(d, "journal.log")
+        parent = JournalStorage(JournalFileBackend(path))
+    rp0 = sd.Replayer(parent)
+    raw_events = []
+    for op in SETUP:
+        ret, raw = rp0.call(op)
+        raw_events.append(["start", 0, op, ret])
+        raw_events.append(["end", 0, None, None])
+    maps = (rp0.rawS, rp0.rawT, rp0.s_of_raw, rp0.t_of_raw)
+    if kind == "sqlite":
+        parent.remove_session()
+        parent.engine.dispose()
+    ctx = mp.get_context("fork")
+    q = ctx.Queue()
+    ps = [ctx.Process(target=_proc_body, args=(kind, path, parent if kind == "journal_fork" else None, maps, i + 1, prog, q))
+          for i, prog in enumerate(programs)]
+    for p_ in ps:
+        p_.start()
+    recs = []
+    for _ in ps:
+        recs += q.get(timeout=300)
+    for p_ in ps:
+        p_.join(timeout=60)
+    stamped = []
+    for w, op, ret, raw, t0, t1 in recs:
+        rec = ["start", w, op, (ret, raw)]
+        stamped.append((t0, 0, rec))
+        stamped.append((t1, 1, ["end", w, None, None]))
+    stamped.sort(key=lambda x: (x[0], x[1]))
+    raw_events += [r for _, _, r in stamped]
+    if kind == "sqlite":
+        from optuna.storages import RDBStorage
+
+        observer = RDBStorage(f"sqlite:///{path}", skip_compatibility_check=True, skip_table_creation=True)
+    else:
+        observer = JournalStorage(JournalFileBackend(path))
+    t = _project_history(raw_events, maps, observer, None, len(programs))
+    if kind == "sqlite":
+        observer.remove_session()
+        observer.engine.dispose()
+    return t
 
 
 # ---------------------------------------------------------------------------------------------------
@@ -316,6 +408,32 @@ def _random_task(args):
     return out
 
 
+def _procs_task(args):
+    kind, seed, n = args
+    import os
+    import shutil
+    import tempfile
+
+    rng = random.Random(seed)
+    workdir = tempfile.mkdtemp(prefix="c03p-", dir=os.environ.get("VERIF_SCRATCH_BASE", "/var/tmp"))
+    out = []
+    try:
+        for j in range(n):
+            nw = rng.choice([2, 3, 3])
+            progs = []
+            for w in range(1, nw + 1):
+                p = []
+                for entry in rng.sample(alphabet(w), rng.choice([2, 3])):
+                    p += entry
+                progs.append(p)
+            t = real_procs_execute(kind, progs, workdir)
+            t["replay"] = {"family": "procs", "kind": "procs_" + kind, "seed": seed, "index": j}
+            out.append(t)
+    finally:
+        shutil.rmtree(workdir, ignore_errors=True)
+    return out
+
+
 def judge(ctx, traces, label):
     for i, t in enumerate(traces):
         t["tid"] = i + 1
@@ -327,7 +445,7 @@ def judge(ctx, traces, label):
     from . import rdb_sched as _rs
 
     torn = _rs.classify_torn_reads(ctx, [traces[tid - 1] for tid in v.rejected
-                                         if traces[tid - 1]["replay"].get("kind") == "cached_rdb_threads"
+                                         if traces[tid - 1]["replay"].get("kind") in ("cached_rdb_threads", "procs_sqlite")
                                          and not _rs.concurrent_cas(traces[tid - 1])])
     for tid in sorted(v.rejected):
         t = traces[tid - 1]
@@ -336,7 +454,7 @@ def judge(ctx, traces, label):
         if id(t) in torn:
             ctx.known_finding(ctx.match_known(_rs.K13_SIG), f"threads of one process on SQLite, e.g. {calls}")
             continue
-        if t["replay"].get("kind") == "cached_rdb_threads":
+        if t["replay"].get("kind") in ("cached_rdb_threads", "procs_sqlite"):
             # threads of one process use separate SQLite connections: the recorded finding K1 applies to them as well
             from . import rdb_sched
 
@@ -360,7 +478,9 @@ def run(ctx):
                 "ordered pair of calls of a 16-call alphabet with a single preemption at every line of the first call "
                 "(sampled lines in quick), (2) seeded random schedules of 2-3 workers x 1-2 calls; each history of call "
                 "starts/ends + the final read-back state is validated by TLC against LinStorage (search over linearization "
-                "points); SQLite connections interleaved per SQL statement are in the rdb part; distinct = distinct histories")
+                "points); SQLite connections interleaved per SQL statement are in the rdb part; (3) real OS processes (fork) free-running on "
+                "one journal file (one inherited JournalStorage object, or one object each) and on one SQLite file, ordered only "
+                "by end(a) < start(b) on the monotonic clock; distinct = distinct histories")
     r = tlc.require_model("InMemLock", "InMemLock_q", must_cover=["CStart", "CReadId", "CBumpId", "CReadLen", "CAppend", "SStart",
                                                                   "SRead", "SWrite"], timeout=600)
     ctx.model(r, "InMemLock (methods are critical sections of one lock)")
@@ -383,6 +503,11 @@ def run(ctx):
         rtasks = [(kind, ctx.seed * 1000 + i, (12 if kind == "cached_rdb_threads" else 40) if ctx.quick else 400)
                   for kind in KINDS for i in range(4)]
         for res in ex.map(_random_task, rtasks):
+            traces += res
+        # real OS processes, free running, ordered only by end(a) < start(b) on one monotonic clock
+        ptasks = [(kind, ctx.seed * 31 + i, 6 if ctx.quick else 60) for kind in ("journal_fork", "journal_fresh", "sqlite")
+                  for i in range(2 if ctx.quick else 4)]
+        for res in ex.map(_procs_task, ptasks):
             traces += res
     ctx.notes["executions"] = len(traces)
     ctx.notes["deadlocks"] = sum(t["deadlock"] for t in traces)
@@ -415,6 +540,8 @@ def replay(ctx, data):
         t = execute(r["kind"], [A, B], preempt_at(r["i"]))
     elif r["family"] == "random":
         t = _random_task((r["kind"], r["seed"], r["index"] + 1))[r["index"]]
+    elif r["family"] == "procs":
+        t = _procs_task((r["kind"][len("procs_"):], r["seed"], r["index"] + 1))[r["index"]]
     else:
         from . import rdb_sched
 
